@@ -23,7 +23,7 @@ CLAIMED.update({
             "phase guards in stepStage, the all-chunks-complete flag, the waiting rule of Node.getState, dependency sources (inputs, disabled condition, return bindings, fork roots) flowing into the prenode/postnode sets, preflight prenodes incl. recursion into sub-pipelines.",
             "Not decided: that FindRefs returns every reference (value-level recursion), state derivation from real files, job manager internals. Trusts go/ssa and the VTA call graph.",
             "DESIGN.md §4 C02"),
-    "C03": ("guard dominance + must-pass-through + who-may-call over go/ssa; disjunctive at-most-once rule + may-alias fix-point over package syntax (shared Disable list never extended in place) + copy-on-write discipline of shared fork-id parts (pointer provenance: caller's part joined with a private copy, guard compares len(node.forks) with Fork.index, followed into helpers) + must-pass-through (zero-length ranges examined before any enabled verdict of Fork.disabled) + sibling agreement of the chunk-directory width at every creator of chunk objects + no store through a shared fork-id part parameter in the static enumeration",
+    "C03": ("guard dominance + must-pass-through + who-may-call over go/ssa; disjunctive at-most-once rule + may-alias fix-point over package syntax (shared Disable list never extended in place) + copy-on-write discipline of shared fork-id parts (pointer provenance: caller's part joined with a private copy, guard compares len(node.forks) with Fork.index, followed into helpers) + must-pass-through (zero-length ranges examined before any enabled verdict of Fork.disabled) + sibling agreement of the chunk-directory width at every creator of chunk objects + no store through a shared fork-id part parameter in the static enumeration + the arm for a narrowed null returns the narrowed value (no job for a null element)",
             "Structural necessary conditions: at-most-once submission (flag test-and-set OR synchronous _jobinfo record before execJob), disabled test before any submission/completion, "
             "empty/null mapped collections reach writeDisable, zero-length range reports disabled, skip() only for preflights under SkipPreflight.",
             "Not decided: one fork per element/key (run-time counts), liveness (no job skipped). The at-most-once rule is a disjunction on purpose: removing one of the two redundant mechanisms keeps behaviour and must not alarm.",
